@@ -38,6 +38,21 @@ pub mod model {
         }
     }
 
+    /// Feature `fixedrand`: draws come from a fixed table of distinct values; the position (number of
+    /// draws so far) lives in the elliptic-curve model's single static struct.  Used by the proof-flow
+    /// harnesses, where fully symbolic blinding makes the solver prove associativity of products of
+    /// three symbolic factors; the statement checked is then "for this draw sequence".
+    #[cfg(feature = "fixedrand")]
+    pub const TABLE: [u32; 16] = [2, 4, 6, 10, 12, 16, 18, 22, 28, 30, 36, 40, 42, 46, 52, 58];
+    #[cfg(feature = "fixedrand")]
+    pub(crate) fn fresh_u32() -> u32 {
+        let o = elliptic_curve::model::oracle();
+        let k = o.draw_n;
+        o.draw_n = k + 1;
+        TABLE[k % 16]
+    }
+
+    #[cfg(not(feature = "fixedrand"))]
     pub(crate) fn fresh_u32() -> u32 {
         #[cfg(kani)]
         let v: u32 = kani::any();
